@@ -67,14 +67,7 @@ func runLBCB(x *X) {
 		s.Teardown()
 		return
 	}
-	dispatched := func(id int) bool {
-		for _, e := range net.snapshot() {
-			if e.kind == "dispatch" && e.req == id {
-				return true
-			}
-		}
-		return false
-	}
+	dispatched := func(id int) bool { return net.dispatchedTo(id) != "" }
 	type fail struct {
 		at    time.Duration
 		class string
